@@ -279,13 +279,16 @@ def _stale_handler_revalidates(ctx, pm, cls_name, slot):
                        (attr_chain(s.value) or [""])[-1] == default for s in body)
         if not restores:
             return False, "%s does not restore the default handler on entry" % h
-        guards = []
+        tested = set()          # names the handler compares the current node's name with (x in (..) or x == ..)
         for t in ast.walk(hm.node):
-            if isinstance(t, ast.Compare) and isinstance(t.ops[0], ast.In) and norm(t.left).endswith("openElements[-1].name"):
+            if isinstance(t, ast.Compare) and len(t.ops) == 1 and isinstance(t.ops[0], (ast.In, ast.Eq)) and \
+                    norm(t.left).endswith("openElements[-1].name"):
                 v = ctx.ce.try_eval(t.comparators[0], hm.module)
                 if isinstance(v, (tuple, list, set, frozenset)):
-                    guards.append(set(v))
-        if not any(names <= g for g in guards):
+                    tested |= {x for x in v if isinstance(x, str)}
+                elif isinstance(v, str):
+                    tested.add(v)
+        if not names <= tested:
             return False, ("%s (installed by the start tags %s) does not test that the current node is one of these elements before "
                            "it deviates from the default handler" % (h, sorted(names)))
     return True, "every installed handler restores the default and re-checks the current node against its installers' elements"
